@@ -1005,6 +1005,13 @@ fn cmd_bits(toks: &[&str]) -> String {
       let ps: Vec<q_compress::verif::VPrefix> = toks[3..].iter().map(|t| vprefix(t)).collect();
       q_compress::verif::body_writer_script(bits, &ps, &us)
     }
+    // ndbounds <bits> <n> <prefix> ...
+    "ndbounds" => {
+      let bits: usize = toks[1].parse().unwrap();
+      let n: usize = toks[2].parse().unwrap();
+      let ps: Vec<q_compress::verif::VPrefix> = toks[3..].iter().map(|t| vprefix(t)).collect();
+      q_compress::verif::num_decompressor_bounds_script(bits, &ps, n)
+    }
     // numdec <bits> <n> <n_processed> <inc idx:reps|-> <limit> <eoi> <bit_idx> <bytes hex|-> <prefix> ...
     "numdec" => {
       let bits: usize = toks[1].parse().unwrap();
@@ -1105,7 +1112,7 @@ fn answer(line: &str) -> String {
       "ts" => cmd_ts(&toks[1..]),
       "consts" => cmd_consts(),
       "floatfns" if toks.len() > 3 && toks[1] == "runlen" => runlen_public(toks[2].parse().unwrap(), toks[3].parse().unwrap()),
-      "bwords" | "bread" | "bwrite" | "bodywrite" | "numdec" | "floatfns" => cmd_bits(&toks),
+      "bwords" | "bread" | "bwrite" | "bodywrite" | "numdec" | "ndbounds" | "floatfns" => cmd_bits(&toks),
       _ => "bad-op".to_string(),
     }
   }));
